@@ -7,7 +7,7 @@ from xml.sax.saxutils import escape
 
 from ..docmodel import word
 
-HTML_SUPPORTS = {"p", "h", "ul", "ul.nested", "tbl", "tbl.nested", "cell.multi", "r", "br", "a", "ins", "isdt", "cm"}
+HTML_SUPPORTS = {"r.acc", "r.num", "p", "h", "ul", "ul.nested", "tbl", "tbl.nested", "cell.multi", "r", "br", "a", "ins", "isdt", "cm"}
 
 
 def _inl(inls) -> str:
